@@ -49,6 +49,7 @@ class World:
         self.phase = "build"
         self.build_violations = []
         self.datasets = {}
+        self.pending_registrations = []  # (dataset object, alias, term): late_overloads
         self.caches = {}
         self.raised = []  # injected exception objects, for identity checks
         self.cache_factory = cache_factory
@@ -152,6 +153,10 @@ class World:
 
     def start(self):
         """Construction finished; from now on bodies may run."""
+        # late_overloads: registrations made after everything (wrappers, derivatives) has been built
+        while self.pending_registrations:
+            d, alias, x = self.pending_registrations.pop(0)
+            d.register(alias, self.build(x))
         self.phase = "run"
         return self
 
@@ -464,6 +469,8 @@ class World:
         self.datasets[name] = (repr(t), d)
         for alias, x in p["overloads"]:
             d.register(alias, self.build(x))
+        for alias, x in p["late_overloads"]:
+            self.pending_registrations.append((d, alias, x))
         return d
 
     def b_dswo(self, t):
